@@ -467,7 +467,7 @@ func c15R1(c *Check, s *c15stats, la *LockAnalysis) {
 			}
 		}
 	}
-	c.Floor("C15.R1:counter-accesses", nEntry, 4)
+	c.Floor("C15.R1:counter-accesses", nEntry, 2)
 }
 
 // ---------------------------------------------------------------------------
@@ -1506,6 +1506,51 @@ func c15closer(p *Prog, depth int) func(ssa.Instruction) bool {
 	return self
 }
 
+// c15isValueOf: v is the result of call (through temporaries, conversions,
+// tuple extraction and phis one of whose edges is the call).
+func c15isValueOf(v ssa.Value, call *ssa.Call, depth int) bool {
+	v = c15localVal(v)
+	if v == ssa.Value(call) {
+		return true
+	}
+	if depth > 4 {
+		return false
+	}
+	switch x := v.(type) {
+	case *ssa.Extract:
+		return x.Tuple == ssa.Value(call)
+	case *ssa.Phi:
+		for _, e := range x.Edges {
+			if c15isValueOf(e, call, depth+1) {
+				return true
+			}
+		}
+	}
+	return false
+}
+
+// c15forwardsErr: fn's last result is an error and every return reachable after
+// `call` returns the call's (error) result unchanged: fn only hands the relay's
+// verdict on to its own caller.
+func c15forwardsErr(fn *ssa.Function, call *ssa.Call) bool {
+	res := fn.Signature.Results()
+	if res.Len() == 0 || !types.Identical(res.At(res.Len()-1).Type(), types.Universe.Lookup("error").Type()) {
+		return false
+	}
+	n := 0
+	for _, r := range c15returnsIn(reachFrom(fn, call, nil, nil)) {
+		if fn.Recover == r.Block() {
+			continue
+		}
+		rs := retResults(r)
+		if len(rs) == 0 || !c15isValueOf(rs[len(rs)-1], call, 0) {
+			return false
+		}
+		n++
+	}
+	return n > 0
+}
+
 func c15R5(c *Check, la *LockAnalysis) {
 	p := c.P
 	const r5 = "C15.R5 when LogTraffic returns false every path leads to CloseWithError on the QUIC connection: directly at the call site, or via the disconnect sentinel returned by the logging copy loop and tested by the relay's caller"
@@ -1535,7 +1580,7 @@ func c15R5(c *Check, la *LockAnalysis) {
 			}
 		})
 	}
-	c.Floor("C15.R5:LogTraffic-sites", len(sites), 4)
+	c.Floor("C15.R5:LogTraffic-sites", len(sites), 1)
 	closes := map[ssa.Instruction]bool{}
 	nFwd := 0
 	ord := map[string]int{}
@@ -1579,7 +1624,7 @@ func c15R5(c *Check, la *LockAnalysis) {
 		c.Bad(k+":closes", r5, p.InstrPos(s), "on the refused edge of LogTraffic (or with its result ignored) a path returns without CloseWithError on the connection: the kicked user stays connected, return at "+p.InstrPos(rets[0]))
 	}
 	if nFwd == 0 {
-		c.Floor("C15.R5:close-sites", len(closes), 3)
+		c.Floor("C15.R5:close-sites", len(closes), 1)
 		return
 	}
 	// the logging copy loop(s): functions of core/server calling a parameter of
@@ -1639,15 +1684,34 @@ func c15R5(c *Check, la *LockAnalysis) {
 		}
 	}
 	c.Floor("C15.R5:callback-consumers", nLoop, 1)
-	// callers of the relay: the sentinel edge closes the connection
+	// callers of the relay: the sentinel edge closes the connection.  A caller
+	// that merely hands the relay's error on as its own last result (a dispatch
+	// helper picking the logging or the fast relay) is itself a relay: the
+	// obligation moves to its callers (worklist, bounded).
 	nCallers := 0
+	var relayList []*ssa.Function
+	relayDepth := map[*ssa.Function]int{}
 	for rf := range relayFns {
+		relayList = append(relayList, rf)
+	}
+	for wi := 0; wi < len(relayList); wi++ {
+		rf := relayList[wi]
 		for _, cs := range la.callers[rf] {
 			call, ok := cs.(*ssa.Call)
 			if !ok {
 				continue
 			}
 			fn := call.Parent()
+			if c15forwardsErr(fn, call) && relayDepth[rf] < 3 && !la.escaped[fn] && len(la.callers[fn]) > 0 {
+				if !relayFns[fn] {
+					relayFns[fn] = true
+					relayDepth[fn] = relayDepth[rf] + 1
+					relayList = append(relayList, fn)
+				}
+				c.Saw(fnName(fn))
+				c.OK("C15.R5:relay-forwarder:"+fnName(fn)+"→"+fnName(rf), r5, p.InstrPos(call))
+				continue
+			}
 			nCallers++
 			c.Saw(fnName(fn))
 			notSentinel := func(cond ssa.Value, pol bool) bool {
@@ -1707,7 +1771,7 @@ func c15R5(c *Check, la *LockAnalysis) {
 		}
 	}
 	c.Floor("C15.R5:relay-callers", nCallers, 1)
-	c.Floor("C15.R5:close-sites", len(closes), 3)
+	c.Floor("C15.R5:close-sites", len(closes), 1)
 }
 
 // ---------------------------------------------------------------------------
